@@ -157,13 +157,13 @@ PROPS = {
         explanation='quote selection of the printer: info::escape(v) returns q + v + q with q a quote character that does not occur in v, for every v that does not contain both quote characters, so the literal re-reads as v under productions [10]-[12]',
     ),
     'C11': dict(
-        standin_ops=['info.normalize_ws'],
+        standin_ops=['info.normalize_ws', 'info.equal_qname'],
         verus_units=['info_helpers'],
         level='proof',
         trusted_base=TRUSTED_VERUS,
         assumptions=[A1, A2 + ' (String::replace(char, " ") as a pointwise map; str::to_string; char::from_u32_unchecked by assume_specification carrying its safety precondition)', A8],
         not_decided='recursion through entity references, type-dependent collapsing, defaulting and `specified` (XmlAttribute::normalized_value, attr_value_from_name, XmlElement::attributes): live document and nom',
-        explanation='white-space step of attribute-value normalization: info::normalize_ws keeps the length and maps exactly #x20 #x9 #xA #xD to a space and every other character to itself, for every string; the four from_u32_unchecked arguments are proved to be scalar values',
+        explanation='white-space step of attribute-value normalization and the declaration key: info::equal_qname is true exactly for two QNames of the same form with identical prefix and local part (the key by which an attribute finds its ATTLIST declaration); info::normalize_ws keeps the length and maps exactly #x20 #x9 #xA #xD to a space and every other character to itself, for every string; the four from_u32_unchecked arguments are proved to be scalar values',
     ),
 }
 
@@ -246,7 +246,7 @@ MANIFEST_TEXT = {
         technique='contract-based deductive verification (Verus postcondition on the extracted real function)',
         design_ref='DESIGN.md §4 C04'),
     'C11': dict(
-        level_text='Proof (Verus, all strings) that info::normalize_ws is the pointwise map sending exactly tab, CR, LF and space to a space, length preserved, unsafe from_u32_unchecked arguments valid. White-space step of C11 only.',
+        level_text='Proof (Verus, all strings) that info::equal_qname compares prefix and local part exactly and that info::normalize_ws is the pointwise map sending exactly tab, CR, LF and space to a space, length preserved, unsafe from_u32_unchecked arguments valid. White-space step of C11 only.',
         level_note='Trusted: Verus+Z3, extractor, String::replace shim. Not decided: entity recursion, typed collapsing, defaulting.',
         technique='contract-based deductive verification (Verus postconditions on the extracted real function)',
         design_ref='DESIGN.md §4 C11'),
